@@ -82,6 +82,10 @@ fn gen_config(rng: &mut Rng) -> (String, String) {
     if rng.chance(3, 4) {
         c += "[structure]\nmax_files = 3\nmax_dirs = 4\n";
         if rng.chance(1, 2) {
+            c += &format!("max_depth = {}\n", rng.range(1, 3));
+            tag.borrow_mut().push("max_depth".into());
+        }
+        if rng.chance(1, 2) {
             let p = pick(rng, "count_exclude", "src/*.md", "**/*.md");
             c += &format!("count_exclude = [\"{p}\"]\n");
         }
@@ -305,6 +309,8 @@ fn family_of(diff: &str, _tag: &str) -> &'static str {
         "sibling-spelling"
     } else if diff.contains("denied") || diff.contains("disallowed") || diff.contains("naming") {
         "placement-spelling"
+    } else if diff.contains("max_depth") {
+        "depth-from-scan-root"
     } else {
         "structure-limit-spelling"
     }
